@@ -133,4 +133,26 @@ theorem renderArpa_seqLog (a : Arpa) (vs : Item → Verdict) (k : Nat) :
   rw [h1]
   simp [List.append_assoc]
 
+/-- raw format: the calls that reach file `k`, written by `CountOutput`, are `rawFile` -/
+theorem renderRaw_seqLog (items : List Item) (vs : Item → Verdict) (k : Nat) :
+    renderRaw (fileLog k (seqLog vs (rawProgram items))) = rawFile items vs k := by
+  unfold rawProgram
+  rw [seqLog_adds]
+  simp only [seqLog, List.append_nil, renderRaw, rawFile, joinLines, keptLines]
+  induction items with
+  | nil => simp [fileLog]
+  | cons x items ih =>
+    have hrep : ∀ n : Nat, (List.replicate n (x.line ++ [10])).flatten
+        = List.flatMap (fun l => l ++ [10]) (List.replicate n x.line) := by
+      intro n
+      induction n with
+      | zero => simp
+      | succ n ihn => simp [List.replicate_succ, ihn]
+    simp only [List.flatMap_cons, fileLog_append, fileLog_itemEvents, List.filterMap_append, List.flatten_append,
+      List.flatMap_append]
+    rw [ih]
+    congr 1
+    simp only [List.filterMap_replicate]
+    exact hrep _
+
 end KV.FilterDrv
